@@ -7,7 +7,9 @@ package main
 import (
 	"fmt"
 	"os"
+	"reflect"
 	"runtime"
+	"runtime/debug"
 	"sort"
 	"strings"
 	"sync"
@@ -94,7 +96,7 @@ func evalAll(progs []string) []aspRes {
 
 type counters struct {
 	evaluated, pyRejected, pyUnsupported, pySyntax, aspBuildOK, aspDefsOK, bothOK, mismatched int
-	pyErrTypes                                                                               map[string]int
+	pyErrTypes                                                                                map[string]int
 }
 
 var cnt = counters{pyErrTypes: map[string]int{}}
@@ -472,6 +474,96 @@ func dbg(format string, args ...any) {
 	}
 }
 
+// ---------- evaluation must not depend on what the same interpreter evaluated before ----------
+// One parser evaluates many files in one plz run. A file whose evaluation fails inside a builtin must leave nothing behind
+// that changes the value of a later, unrelated file (the builtins' argument slices are pooled). For every pair
+// (failing program, good program) the good program's globals after the failure are compared with its globals on a fresh
+// interpreter (differential: no reference implementation involved).
+
+var failingProgs = []string{
+	`x = sorted([2, "a", 1], reverse = True)`,
+	`x = sorted([2, "a", 1], key = lambda v: v, reverse = True)`,
+	`x = max([], key = lambda v: 0 - v)`,
+	`x = min([], key = lambda v: 0 - v)`,
+	`x = max([1, "a"], key = lambda v: v + 1)`,
+	`x = reduce(lambda a, b: a + b, [1, "a"], 100)`,
+	`x = map(lambda v: v + 1, ["a"])`,
+	`x = filter(lambda v: v + 1, ["a"])`,
+	`x = range(1, "a", 2)`,
+	`x = range(5, 1, 0 - 1) + "a"`,
+	`x = "a,b".split(",", "z")`,
+	`x = "aXa".replace("a", 1)`,
+	`x = ",".join([1, 2])`,
+	`x = {"a": 1}.get("b", 5) + "z"`,
+	`x = enumerate(5)`,
+	`x = zip([1], 5)`,
+	`x = "abc".find("c", "z")`,
+	`x = any(5)`,
+	`x = int("zz")`,
+	`x = "a b".partition(5)`,
+	`x = "%s %s" % ("a",)`,
+}
+
+var goodProgs = []string{
+	`x = sorted([3, 1, 2])`, `x = sorted(["b", "a"])`, `x = max([1, 3, 2])`, `x = min([3, 1, 2])`, `x = max(["a", "c", "b"])`,
+	`x = reduce(lambda a, b: a + b, [1, 2, 3])`, `x = reduce(lambda a, b: a + b, ["a", "b"])`, `x = map(lambda v: v + 1, [1, 2])`,
+	`x = filter(lambda v: v, [0, 1, 2])`, `x = range(3)`, `x = range(1, 4)`, `x = "a,b,c".split(",")`, `x = "aXa".replace("a", "b")`,
+	`x = ",".join(["a", "b"])`, `x = {"a": 1}.get("b")`, `x = {"a": 1}.get("a")`, `x = enumerate(["a", "b"])`, `x = zip([1, 2], [3, 4])`,
+	`x = "abcabc".find("c")`, `x = "abcabc".rfind("c")`, `x = any([0, 1])`, `x = all([0, 1])`, `x = int("12")`, `x = "a b c".partition(" ")`,
+	`x = "a b c".rpartition(" ")`, `x = "  a ".strip()`, `x = "xax".lstrip("x")`, `x = "a b".split()`, `x = "abc".count("b")`,
+	`x = "Abc".startswith("A")`, `x = "abc".endswith("c")`, `x = len([1, 2])`, `x = str(5)`, `x = sorted([2, 1], reverse = False)`,
+}
+
+func afterFailure(r *lib.Run) int {
+	defer debug.SetGCPercent(debug.SetGCPercent(-1)) // (a collection empties the pools whose contents this tier is about)
+	alone := make([]aspRes, len(goodProgs))
+	for i, g := range goodProgs {
+		alone[i] = newAspWorker().eval(g)
+		if !alone[i].bok || !alone[i].dok {
+			lib.Fatal("after-failure tier: the good program %q is rejected on a fresh interpreter: %s %s", g, alone[i].berr, alone[i].derr)
+		}
+	}
+	pairs := 0
+	var mu sync.Mutex
+	var wg sync.WaitGroup
+	sem := make(chan struct{}, runtime.NumCPU())
+	for _, f := range failingProgs {
+		wg.Add(1)
+		sem <- struct{}{}
+		go func(f string) {
+			defer wg.Done()
+			defer func() { <-sem }()
+			for i, g := range goodProgs {
+				w := newAspWorker()
+				fr := w.eval(f)
+				if fr.bok && fr.dok {
+					continue // not a failing program on this tree: nothing to learn
+				}
+				got := w.eval(g)
+				mu.Lock()
+				pairs++
+				mu.Unlock()
+				if got.bok != alone[i].bok || got.dok != alone[i].dok || !reflect.DeepEqual(got.b, alone[i].b) || !reflect.DeepEqual(got.d, alone[i].d) {
+					// the same pair must fail again on another fresh interpreter
+					w2 := newAspWorker()
+					w2.eval(f)
+					again := w2.eval(g)
+					if reflect.DeepEqual(again.b, got.b) && reflect.DeepEqual(again.d, got.d) && again.bok == got.bok && again.dok == got.dok {
+						name := g[4:]
+						if k := strings.IndexAny(name, "(."); k > 0 && !strings.HasPrefix(name, "\"") && !strings.HasPrefix(name, "{") && !strings.HasPrefix(name, "[") {
+							name = name[:k]
+						}
+						r.Violate("value-depends-on-an-earlier-failed-evaluation:"+name, map[string]any{"failing_program_evaluated_first": f, "program": g},
+							fmt.Sprintf("after the evaluation of %q failed, %q evaluates to %s / %s (errors %q %q); on a fresh interpreter to %s / %s", f, g, show(got.b), show(got.d), got.berr, got.derr, show(alone[i].b), show(alone[i].d)))
+					}
+				}
+			}
+		}(f)
+	}
+	wg.Wait()
+	return pairs
+}
+
 func main() {
 	r := lib.Start("C16", "exploration")
 	lib.Quiet()
@@ -496,6 +588,28 @@ func main() {
 		os.Exit(0)
 	}
 	if r.Replay != "" {
+		var pw struct {
+			F string `json:"failing_program_evaluated_first"`
+			G string `json:"program"`
+		}
+		lib.LoadReplay(r.Replay, &pw)
+		if pw.F != "" {
+			// pooled objects survive only until the next garbage collection and only on the same processor: the garbage
+			// collector is switched off and the pair is tried a few times (what is being replayed is a possibility)
+			defer debug.SetGCPercent(debug.SetGCPercent(-1))
+			alone := newAspWorker().eval(pw.G)
+			for try := 0; try < 20; try++ {
+				w := newAspWorker()
+				w.eval(pw.F)
+				got := w.eval(pw.G)
+				if !reflect.DeepEqual(got.b, alone.b) || !reflect.DeepEqual(got.d, alone.d) || got.bok != alone.bok || got.dok != alone.dok {
+					r.Violate("replay", pw, fmt.Sprintf("after %q failed, %q evaluates to %s / %s; on a fresh interpreter to %s / %s", pw.F, pw.G, show(got.b), show(got.d), show(alone.b), show(alone.d)))
+					break
+				}
+			}
+			os.RemoveAll(dir)
+			r.Finish(lib.Coverage{Evaluations: 1, DistinctNontrivial: 1, Rule: "replay", Samples: []any{pw}, Exhaustive: true})
+		}
 		var w witness
 		lib.LoadReplay(r.Replay, &w)
 		py := startPy(dir, 1)
@@ -511,6 +625,8 @@ func main() {
 		os.RemoveAll(dir)
 		r.Finish(lib.Coverage{Evaluations: 1, DistinctNontrivial: 1, Rule: "replay", Samples: []any{w}, Exhaustive: true})
 	}
+
+	afterFailurePairs := afterFailure(r)
 
 	pyw := nw - 4
 	if pyw < 2 {
@@ -568,17 +684,18 @@ func main() {
 		Samples:            samples.List(),
 		Exhaustive:         exhaustive,
 		Extra: map[string]any{
-			"spaces":                         spaceNames,
-			"template_programs":              templateEvals,
-			"template_families":              len(famStats),
+			"after_failure_pairs_failing_then_good_program_on_one_interpreter": afterFailurePairs,
+			"spaces":                           spaceNames,
+			"template_programs":                templateEvals,
+			"template_families":                len(famStats),
 			"template_families_never_compared": deadFamilies,
-			"cpython_rejected":               cnt.pyRejected,
-			"cpython_rejected_by_type":       cnt.pyErrTypes,
-			"cpython_unsupported_value":      cnt.pyUnsupported,
-			"interpreter_ok_build_file_path": cnt.aspBuildOK,
-			"interpreter_ok_build_defs_path": cnt.aspDefsOK,
-			"programs_disagreeing":           cnt.mismatched,
-			"static_filter_self_checked":     filterChecked,
+			"cpython_rejected":                 cnt.pyRejected,
+			"cpython_rejected_by_type":         cnt.pyErrTypes,
+			"cpython_unsupported_value":        cnt.pyUnsupported,
+			"interpreter_ok_build_file_path":   cnt.aspBuildOK,
+			"interpreter_ok_build_defs_path":   cnt.aspDefsOK,
+			"programs_disagreeing":             cnt.mismatched,
+			"static_filter_self_checked":       filterChecked,
 		},
 	})
 }
